@@ -297,9 +297,11 @@ func coreHistory(c *Ctx, d *coreDrv) {
 			if len(keys) > 0 {
 				k := s.pickFrom(keys)
 				a := s.asks[k]
+				// releases the shim initiates: STOPPED_BY_RM (or no type). TIMEOUT / PREEMPTED_BY_SCHEDULER / PLACEHOLDER_REPLACED
+				// are only legal as confirmations of a release the core announced (the malformed stream sends them unsolicited)
 				typ := "STOPPED_BY_RM"
 				if c.chance(0.1) {
-					typ = []string{"UNKNOWN", "TIMEOUT", "PREEMPTED_BY_SCHEDULER"}[c.pick(3)]
+					typ = "UNKNOWN"
 				}
 				emitAndAbsorb(map[string]interface{}{"op": "release", "app": a.app, "key": k, "type": typ})
 				delete(s.asks, k)
@@ -313,6 +315,9 @@ func coreHistory(c *Ctx, d *coreDrv) {
 				i := c.pick(len(s.pendConf))
 				conf := s.pendConf[i]
 				s.pendConf = append(s.pendConf[:i], s.pendConf[i+1:]...)
+				// once the shim has been told about the release it considers the key gone, whether or not it confirms
+				delete(s.asks, conf["key"].(string))
+				delete(s.bound, conf["key"].(string))
 				if !c.chance(0.1) { // 10% never delivered
 					emitAndAbsorb(conf)
 					if c.chance(0.15) {
@@ -407,6 +412,8 @@ func coreHistory(c *Ctx, d *coreDrv) {
 		for len(s.pendConf) > 0 && c.chance(0.6) {
 			conf := s.pendConf[0]
 			s.pendConf = s.pendConf[1:]
+			delete(s.asks, conf["key"].(string))
+			delete(s.bound, conf["key"].(string))
 			emitAndAbsorb(conf)
 		}
 	}
